@@ -165,7 +165,9 @@ class Interp:
         if r is not None: return r
         g = parse_global(s.mod, name)
         if g is None or g.init is None:
-            raise EncodingError('external global ' + name)
+            # external object (typeinfo, vtable, std stream): an opaque zero-size region; any access to it is reported by the bounds check
+            r = s.new_region('extern:' + name, 0, 8, 'extern', writable=False); s.globals[name] = r
+            return r
         r = s.new_region(name, sizeof(g.ty), g.align, 'global', writable=not g.const)
         s.globals[name] = r
         s.init_const(r, 0, g.ty, g.init)
